@@ -44,6 +44,7 @@ def run(ctx):
     rule_courses(ctx)
     rule_layout(ctx)
     rule_tab_bar(ctx)
+    rule_tab_edges(ctx)
     rule_tab_composition(ctx)
     ctx.floor("R-C20-1", 6)
     ctx.floor("R-C20-2", 5)
@@ -472,6 +473,66 @@ def rule_tab_composition(ctx):
             if ok and seen != set(owner):
                 ok, why = False, "%d of %d bars are never rendered" % (len(owner) - len(seen), len(owner))
         ctx.check(ok, R, "from_Composition[%s]" % order, f.where(), "tablature.from_Composition(<%s>)" % order, why)
+
+
+def rule_tab_edges(ctx):
+    """Boundary shapes of the renderer: an empty bar, a composition without tracks, string names of different
+    lengths, and a note that carries string / fret hints which do not exist on this tuning."""
+    R = "R-C20-T"
+    repo = ctx.repo
+    mod = repo.mod(TB)
+    summ = base_summaries(repo)
+    nci, barci, compci = repo.mod(NC).cls("NoteContainer"), repo.mod(BAR).cls("Bar"), repo.mod(COMP).cls("Composition")
+    strings = [note_stub(repo, "E", pitch=40), note_stub(repo, "A", pitch=45), note_stub(repo, "d", pitch=50)]
+    # (1) an empty bar renders to equally long lines, one per string
+    f = mod.func("from_Bar")
+    for width in (40, 61):
+        paths = run_method(repo, f, lambda: [AObj(barci, {"bar": [], "meter": (4, 4)}, name="bar"), width, tuning_obj(repo, strings), False], summaries=summ, max_depth=30)
+        ok, why = len(paths) == 1 and paths[0].kind == "return" and isinstance(paths[0].value, list), "an empty bar gives %s" % [(p.kind, short(repr(p.value), 60)) for p in paths]
+        if ok:
+            body = paths[0].value[1:]
+            if len(body) != len(strings) or len({len(x) for x in body}) != 1 or not all(isinstance(x, str) for x in body):
+                ok, why = False, "an empty bar renders to %r" % (paths[0].value,)
+        ctx.check(ok, R, "from_Bar[empty bar,%d]" % width, f.where(), "tablature.from_Bar(<empty bar>, %d)" % width, why)
+    # (2) a composition without tracks renders (to its header)
+    fc = mod.func("from_Composition")
+    comp = AObj(compci, {"tracks": [], "title": "T", "subtitle": "", "author": "A", "email": "", "description": ""}, name="comp")
+    paths = run_method(repo, fc, lambda: [comp, 80], summaries={TB + ".add_headers": lambda it, a, k, n: ["", "T", ""]}, max_depth=30)
+    ok = len(paths) == 1 and paths[0].kind == "return" and isinstance(paths[0].value, str)
+    ctx.check(ok, R, "from_Composition[no tracks]", fc.where(), "tablature.from_Composition(<no tracks>)", "gives %s" % [(p.kind, short(repr(p.value), 60)) for p in paths])
+    # (3) the prefix of every string line is as wide as the longest string name (not the alphabetically last one)
+    fb = mod.func("begin_track")
+    odd = [note_stub(repo, "Bb,,", pitch=10), note_stub(repo, "F,", pitch=17), note_stub(repo, "c", pitch=36), note_stub(repo, "g", pitch=43)]
+    paths = run_method(repo, fb, lambda: [tuning_obj(repo, odd)], summaries=summ)
+    ok = len(paths) == 1 and paths[0].kind == "return" and isinstance(paths[0].value, list) and len({len(x) for x in paths[0].value}) == 1 \
+        and all(isinstance(x, str) and x.count("||") == 1 for x in paths[0].value)
+    ctx.check(ok, R, "begin_track[names of different length]", fb.where(), "tablature.begin_track(<strings Bb,, F, c g>)",
+              "line prefixes %r are not equally long: the width must come from the longest name" % ([(p.kind, p.value) for p in paths],))
+    fq = mod.func("_get_qsize")
+    p1 = run_method(repo, fq, lambda: [tuning_obj(repo, odd), 60], summaries=summ)
+    p2 = run_method(repo, fq, lambda: [tuning_obj(repo, [note_stub(repo, "xxxx", pitch=1), note_stub(repo, "y", pitch=2)]), 60], summaries=summ)
+    ok = len(p1) == 1 and len(p2) == 1 and p1[0].kind == "return" and p1[0].value == p2[0].value
+    ctx.check(ok, R, "_get_qsize[names of different length]", fq.where(), "tablature._get_qsize(<strings Bb,, F, c g>, 60)",
+              "the quarter size %r differs from that of another tuning whose longest name is as long (%r)" % ([(p.kind, p.value) for p in p1], [(p.kind, p.value) for p in p2]))
+    # (4) string / fret hints that do not exist on this tuning are ignored, not an error
+    fn = mod.func("from_Note")
+    ffk = "%s.StringTuning.find_frets" % TU
+    for label, hint in (("string out of range", (5, 3)), ("fret out of range", (0, 99)), ("valid but another note", (1, 2))):
+        def mk(hint=hint):
+            n = note_stub(repo, "g", pitch=43)
+            n.attrs["string"], n.attrs["fret"] = hint
+            return [n, 40, tuning_obj(repo, strings)]
+        summ2 = dict(summ)
+        summ2[ffk] = lambda it, a, k, n_: [3, None, None]
+        summ2[NOTE + ".Note"] = lambda it, a, k, n_: note_stub(repo, "made", pitch=Lin.of(a[0]) if Lin.of(a[0]) is not None else None)
+        try:
+            paths = run_method(repo, fn, mk, summaries=summ2, max_depth=30)
+        except CannotDecide as e:
+            raise AnalysisError("tablature.from_Note(<%s>): %s" % (label, e))
+        ok = len(paths) == 1 and paths[0].kind == "return" and isinstance(paths[0].value, str)
+        ctx.check(ok, R, "from_Note[hint: %s]" % label, fn.where(), "tablature.from_Note(<note with string/fret hint: %s>)" % label,
+                  "a playable note whose string / fret attributes do not fit this tuning gives %s; only a note without any fingering is an error" % [
+                      (p.kind, short(repr(p.value), 50)) for p in paths])
 
 
 def rule_tab_bar(ctx):
